@@ -28,9 +28,23 @@ def digest(x):
     return hashlib.sha1(json.dumps(x, sort_keys=True, default=str).encode()).hexdigest()[:12]
 
 
+def custom_tokens(variant):
+    """a tokenizer with its own macro set (two sets with the same names and different bodies) on a text they split differently"""
+    from cssutils import cssproductions
+    from cssutils.tokenize2 import Tokenizer
+    macros = dict(cssproductions.MACROS)
+    if variant == "B":
+        macros["nmstart"] = "[a-z]|{nonascii}|{escape}"          # no underscore at the start of a name
+    tk = Tokenizer(macros=macros, productions=cssproductions.PRODUCTIONS)
+    return [(t[0], t[1]) for t in tk.tokenize("_x y")]
+
+
 def battery():
     """parse + serialise reference texts through the public entry points -> list of strings"""
     out = []
+    for v in ("A", "B"):
+        o, r = outcome(lambda: custom_tokens(v))
+        out.append(repr(r) if o == "ok" else o)
     # first: production-parser entry points where any token left over by an earlier call changes the result
     o, r = outcome(lambda: cssutils.css.PropertyValue("1px solid red").cssText)
     out.append(r if o == "ok" else o)
@@ -126,7 +140,10 @@ def apply(world, a):
     if op == "combine":
         if a["fault"] == "missingfile":
             return outcome(lambda: cssutils.script.csscombine(path=os.path.join(world["tmp"], "nope.css")))[0]
-        return outcome(lambda: cssutils.script.csscombine(cssText="a { left: 0 } b { top: 1px }", href="http://example.org/x.css"))[0]
+        return outcome(lambda: cssutils.script.csscombine(cssText="a { left: 0 } b { top: 1px }", href="http://example.org/x.css",
+                                                          minify=a.get("minify", True), resolveVariables=a.get("resolve", True)))[0]
+    if op == "tokenizer":
+        return outcome(lambda: custom_tokens(a["macros"]))[0]
     if op == "setpref":
         set_pref(a["v"])
         world["pref"] = a["v"]
